@@ -104,7 +104,7 @@ func TestC19(t *testing.T) {
 	defer runtime.GOMAXPROCS(runtime.GOMAXPROCS(0))
 	base, _ := os.MkdirTemp(ev.Scratch(), "c19")
 	defer os.RemoveAll(base)
-	runs := ev.Pick(120, 4000)
+	runs := ev.Pick(120, 1500)
 	rng := ev.NewRNG(ev.Seed(), "c19")
 	bufSize := readBufferSize()
 	// the last runs are slow ones: every line is stalled at the hook so that
